@@ -49,8 +49,6 @@ impl PathBuf {
     pub fn is_absolute(&self) -> (b: bool) ensures self.abs_clean() ==> b { unimplemented!() }
     // PathExt::has_prefix / has_suffix compare the TEXT of the paths (unit path_helpers); at the component level used here they are unspecified
     #[verifier::external_body] pub fn ne_p<T: PathArg>(&self, o: T) -> (b: bool) ensures b == (self.comps() != o.pc()) { unimplemented!() }
-    #[verifier::external_body] pub fn has_prefix<T: PathArg>(&self, p: T) -> (b: bool) { unimplemented!() }
-    #[verifier::external_body] pub fn has_suffix<T: PathArg>(&self, p: T) -> (b: bool) { unimplemented!() }
     #[verifier::external_body]
     pub fn to_owned(&self) -> (r: PathBuf) ensures r@ == self@, r.abs_clean() == self.abs_clean(), r.comps() == self.comps() { unimplemented!() }
 }
@@ -739,10 +737,10 @@ pub fn write(fs: &Memfs, guard: &mut MemfsGuard, path: &PathBuf) -> (r: RvResult
             &&& a is Some ==> ({
                 let e = new_file_entry(a->Some_0);
                 &&& (r is Err) == (spec_add_err(s0, e) is Some)
-                &&& final(guard).st() == spec_add_st(s0, e)                                            //@ clause write.creates_file_if_missing [C01]
+                &&& final(guard).st() == spec_add_st(s0, e)                                            //@ clause write.creates_file_if_missing [C01,C03]
                 // the handle starts empty at position 0 and is bound to abs(path): dropping it replaces the whole content (truncate)
                 &&& r is Ok ==> r->Ok_0.data@ == Seq::<u8>::empty() && r->Ok_0.pos == 0 && r->Ok_0.fs is Some
-                        && r->Ok_0.path is Some && r->Ok_0.path->Some_0@ == a->Some_0 && r->Ok_0.path->Some_0.abs_clean()    //@ clause write.handle_truncates [C06,C07]
+                        && r->Ok_0.path is Some && r->Ok_0.path->Some_0@ == a->Some_0 && r->Ok_0.path->Some_0.abs_clean()    //@ clause write.handle_truncates [C06,C07,C03]
                 &&& wf(final(guard).st()) || parent_is_link(s0, a->Some_0)
             })
         }),
